@@ -921,10 +921,56 @@ def drop_skipped(ops, res):
 # ----------------------------------------------------------------------------------------------
 # run
 # ----------------------------------------------------------------------------------------------
+def scenario_concurrent_tokens(s, nthreads, per_thread, same_name):
+    """H3: several threads of one context (and of a second, same-named context) generate lock tokens
+    concurrently; every source line of make_unique_token is a scheduling point."""
+    import threading as real_threading
+    import logging
+    import dsched
+    from qmi.core.context import QMI_Context
+    logging.disable(logging.CRITICAL)
+    dsched.enable_line_yields([QMI_Context.make_unique_token])
+    ctxs = [QMI_Context("cl")] + ([QMI_Context("cl")] if same_name else [])
+    toks = []
+
+    def work(ctx):
+        for _ in range(per_thread):
+            t = ctx.make_unique_token()
+            toks.append((t.context_id, t.token))
+    ths = [real_threading.Thread(target=work, args=(ctxs[i % len(ctxs)],)) for i in range(nthreads)]
+    for t in ths:
+        t.start()
+    for t in ths:
+        t.join()
+    return {"tokens": toks}
+
+
+def run_concurrent_tokens(ck):
+    import dsched
+    import qmi.core.context  # noqa
+    n = 120 if ck.tier == "quick" else 3000
+    jobs = [(scenario_concurrent_tokens, (2 + i % 3, 2, bool(i % 2)), dict(strategy="random", seed=ck.seed * 4099 + i, switch_prob=0.5))
+            for i in range(n)]
+    for i, res in enumerate(dsched.run_forked(jobs, nproc=16, wall_timeout=30)):
+        ck.note_case(("conc-tokens", i, tuple(res.get("choices") or ())), True)
+        ck.count("conc-tokens:" + res["status"])
+        if res["status"] != "ok":
+            ck.report("oracle:conc-tokens:%s" % res["status"], "concurrent token generation did not finish: %s" % str(res.get("trace") or res.get("info"))[:300],
+                      {"concurrent_tokens": True, "args": list(jobs[i][1]), "schedule": res.get("choices")})
+            continue
+        toks = [tuple(t) for t in res["obs"]["tokens"]]
+        if len(set(toks)) != len(toks):
+            dup = sorted(t for t in set(toks) if toks.count(t) > 1)[0]
+            ck.report("tokens:auto-collision:concurrent", "two concurrently generated automatic lock tokens are equal: %r "
+                      "(threads of %s context(s) named 'cl' calling make_unique_token at the same time)" % (dup, "two same-named" if jobs[i][1][2] else "one"),
+                      {"concurrent_tokens": True, "args": list(jobs[i][1]), "schedule": res.get("choices"), "tokens": toks})
+
+
 def run(ck):
     logging.disable(logging.CRITICAL)
     ck.theory_dir = THEORY
     ck.build_theory(THEORY)
+    run_concurrent_tokens(ck)
     ck.trusted = [
         "Coq 8.16.1 kernel (vm_compute evaluates the model on the cases; no native_compute)",
         "hand-written model theories/C04/Model.v of _RpcThread._handle_lock_rpc_request/_handle_method_rpc_request, "
@@ -1104,6 +1150,19 @@ def _tup(x):
 
 
 def replay(rep):
+    if rep["case"].get("concurrent_tokens"):
+        import dsched
+        import qmi.core.context  # noqa
+        c = rep["case"]
+        res = dsched.run_forked([(scenario_concurrent_tokens, tuple(c["args"]), dict(strategy="replay", schedule=list(c.get("schedule") or [])))], nproc=1)[0]
+        toks = [tuple(t) for t in (res.get("obs") or {}).get("tokens", [])]
+        bad = res["status"] != "ok" or len(set(toks)) != len(toks)
+        print(res["status"], toks, "COLLISION" if bad else "all distinct")
+        return 1 if bad else 0
+    return _replay_hist(rep)
+
+
+def _replay_hist(rep):
     logging.disable(logging.CRITICAL)
     c = rep["case"]
     kind = c.get("kind")
